@@ -59,6 +59,11 @@ CLAIMED = {
     level="Row i of each synthetic sensor equals rotations[i]^T times the reference attribute plus draw x configured noise on every arm; the gyroscope bias coefficient equals the reported one in both unit arms; generate() never overwrites configuration; rotations/angles/velocities derive from the stored, unmodified quaternions. Gyro integration reproducing the trajectory is numerical and not decided.",
     note="Random draws are modelled as fresh symbols in source order; real arithmetic.",
     ref="DESIGN.md §2 C20"),
+ "C16": dict(
+    technique="AVN identities over symbolic (a, f, GM, w): derived constants, Pizzetti's theorem on every return arm (general, f = 0, inequality-guarded), Somigliana at equator/pole, latitude parity, the free-air height factor with an interval-arithmetic sign argument; SHARED-STATE effect rule",
+    level="The level-ellipsoid identities are rational-function identities in the code's own closed forms (the arctan terms cancel), decided exactly for all parameters at once, arm by arm; that is stronger than any sampling of the 4-parameter space. Positivity and closeness to sphere values for small f are not decided.",
+    note="Real arithmetic; arctan(e') is an uninterpreted atom; 1-f > 0 and a > 0 declared.",
+    ref="DESIGN.md §2 C16"),
 }
 
 NOT_YET = "check not built yet in this session (work in progress; see DESIGN.md §2 for the planned static rules)"
